@@ -1,6 +1,8 @@
 """C16 -- merging preserves every input's geometry and data (symx, seam A)."""
 from __future__ import annotations
 
+import itertools
+
 import numpy as real_np
 
 from symx import patch
@@ -36,7 +38,7 @@ class Merge(Scenario):
         cls, merger = {"points": (Points, PointsMerger), "curve": (Curve, CurveMerger),
                        "surface": (Surface, SurfaceMerger)}[kind]
         ws = Workspace()
-        ins, vds, cds = [], [], []
+        ins, vds, cds, xds = [], [], [], []
         for e, (n, m) in enumerate(shapes):
             kw = {"vertices": real_np.zeros((n, 3)), "name": f"in{e}"}
             if w:
@@ -44,11 +46,20 @@ class Merge(Scenario):
             o = cls.create(ws, **kw)
             vd = o.add_data({"d": {"values": real_np.zeros(n), "association": "VERTEX"}}) if has_v[e] else None
             cd = o.add_data({cname: {"values": real_np.zeros(m), "association": "CELL"}}) if (w and has_c[e] and m) else None
+            extras = self.params.get("extras", [()] * len(shapes))[e]
+            if "referenced" in extras:
+                xds.append(o.add_data({"r": {"values": (real_np.arange(n) % 2 + 1).astype("int32"), "type": "referenced",
+                                             "value_map": {1: "x", 2: "y"}, "association": "VERTEX"}}))
+            if "integer" in extras:
+                xds.append(o.add_data({"i": {"values": (real_np.arange(n) + 10 * (e + 1)).astype("int32"), "type": "integer",
+                                             "association": "VERTEX"}}))
+            if "boolean" in extras:
+                xds.append(o.add_data({"b": {"values": real_np.arange(n) % 2 == 0, "type": "boolean", "association": "VERTEX"}}))
             ins.append(o)
             vds.append(vd)
             cds.append(cd)
         if not stored:
-            patch.detach(ws, *[x for x in ins + vds + cds if x is not None])
+            patch.detach(ws, *[x for x in ins + vds + cds + xds if x is not None])
         with self.engine(cx) as X:
             sym = []
             for e, (o, (n, m)) in enumerate(zip(ins, shapes)):
@@ -128,6 +139,29 @@ class Merge(Scenario):
                                      f"'{name}' is no-data where input {e} lacks it", "data")
                     off += cnt
                 cx.observe(name + assoc, [v for v in vals if not is_nan(v)])
+            # other data kinds (concrete values): one merged data set per name, inputs' values at their offsets, the kind's
+            # own no-data code where an input lacks the data
+            ex_all = self.params.get("extras", [()] * len(shapes))
+            for nm, kindname, gen in (("r", "referenced", lambda e, n: [i % 2 + 1 for i in range(n)]),
+                                      ("i", "integer", lambda e, n: [i + 10 * (e + 1) for i in range(n)]),
+                                      ("b", "boolean", lambda e, n: [i % 2 == 0 for i in range(n)])):
+                if not any(kindname in x for x in ex_all):
+                    continue
+                got = [c for c in out.children if getattr(c, "name", None) == nm]
+                cx.prove(len(got) == 1, f"exactly one merged {kindname} data '{nm}'", "data (other kinds)")
+                if len(got) != 1:
+                    continue
+                vals = [int(v) for v in elems(got[0].values)]
+                blank = int(got[0].nan_value)
+                exp = []
+                for e, (n, m) in enumerate(shapes):
+                    exp += [int(v) for v in gen(e, n)] if kindname in ex_all[e] else [blank] * n
+                cx.prove(vals == exp, f"merged '{nm}': inputs' values at their offsets, no-data code {blank} where an input lacks it "
+                                      f"(got {vals}, expected {exp})", "data (other kinds)")
+                if kindname == "referenced":
+                    vm = got[0].value_map.map if got[0].value_map is not None else {}
+                    cx.prove(dict(vm).get(1) == "x" and dict(vm).get(2) == "y", "the merged referenced data keeps its value map",
+                             "data (other kinds)")
             # inputs unchanged
             for e, (o, (V, C, D, CD), (n, m)) in enumerate(zip(ins, sym, shapes)):
                 ie = elems(o.vertices)
@@ -263,7 +297,10 @@ def scenarios(tier, seed):
               Merge(kind="surface", shapes=[(4, 2), (4, 2)], vdata=[False, True], cdata=[True, False], cell_data_name="d"),
               DrapeMerge(shapes=[[2, 1], [1, 2], [1, 1]], data=[True, False, True]),
               Merge(kind="curve", shapes=[(3, 2), (2, 1)], vdata=[True, False], cdata=[True, True], stored=True),
-              Merge(kind="points", shapes=[(2, 0), (2, 0)], vdata=[True, True], stored=True)]
+              Merge(kind="points", shapes=[(2, 0), (2, 0)], vdata=[True, True], stored=True),
+              Merge(kind="points", shapes=[(2, 0), (3, 0), (1, 0)], vdata=[True, False, True],
+                    extras=[("referenced", "integer"), ("boolean",), ("referenced",)]),
+              Merge(kind="curve", shapes=[(3, 1), (2, 1)], vdata=[False, True], extras=[("referenced", "boolean"), ("referenced", "integer")])]
     else:
         for kind in ("curve", "surface"):
             for shapes in ([(3, 1), (2, 1)], [(4, 2), (3, 2)], [(2, 2), (3, 3), (4, 1)], [(4, 3), (4, 3)],
@@ -272,6 +309,10 @@ def scenarios(tier, seed):
                 for vd, cd in (([True] * k, [True] * k), ([True] + [False] * (k - 1), [False] * (k - 1) + [True]),
                                ([False] * (k - 1) + [True], [False] * k)):
                     S.append(Merge(kind=kind, shapes=shapes, vdata=vd, cdata=cd))
+        for kind, shapes in (("points", [(2, 0), (3, 0), (1, 0)]), ("curve", [(3, 1), (2, 1)]), ("surface", [(3, 1), (4, 2)])):
+            for ex in itertools.product([(), ("referenced",), ("referenced", "integer", "boolean")], repeat=len(shapes)):
+                if any(ex):
+                    S.append(Merge(kind=kind, shapes=shapes, vdata=[True] * len(shapes), extras=list(ex)))
         S += [Merge(kind="surface", shapes=[(4, 2), (4, 2)], vdata=[False, True], cdata=[True, False], cell_data_name="d"),
               Merge(kind="curve", shapes=[(3, 2), (2, 1), (3, 3)], vdata=[True, False, True], cdata=[False, True, True], cell_data_name="d")]
         S += [DrapeMerge(shapes=[[2, 1], [1, 2], [1, 1]], data=[True, False, True]), DrapeMerge(shapes=[[1, 1], [2, 2]]),
